@@ -19,7 +19,8 @@ RULE = ("datagram histories through a real SessionManager + InterceptingLLUDPPro
         "deferred parsing on/off: UseCircuitCode, valid template messages of any type viewer->sim (wrapped with an RFC 1928 "
         "header built in /verif) and sim->viewer, circuit-closing messages, interleaved with faults: frag!=0, rsv!=0, address "
         "types 3/4/other, short header, non-SOCKS from the viewer, unknown host, sim before viewer, no circuit, unregistered "
-        "address, pre-session traffic, UDP-banned names inbound, truncated / bit-flipped payloads, unknown message numbers.  "
+        "address, pre-session traffic, UDP-banned names inbound, truncated / bit-flipped payloads, unknown message numbers, ack trailers that "
+        "leave no room for a message, foreign or replayed circuit claims, disconnects.  "
         "Each delivery is compared with a model of expected deliveries; session state is compared at the end.  Thorough adds "
         "every template name once in each direction.  Non-trivial = history with a fault between two valid datagrams; "
         "distinct by event content.")
